@@ -198,9 +198,9 @@ func init() {
 				{"", "Eb[1]{key=Eb} Ab[1] R[1] Bb_7[1] Cm[1]{key=Cm} G[1] Fm/Ab[1,1/2]"},
 				{"F#m", "A[1]{key=A} D[1] E[1] R[1]{key=Gm} Gm[1] Cm[1] D_7[1]"},
 			} {
-				reps := 450
+				reps := 2400 // 16 800 instances: beyond 2^14
 				if !c.quick() {
-					reps = 1500
+					reps = 10000 // 70 000: beyond 2^16
 				}
 				if c.quick() && i == 2 {
 					continue
@@ -212,7 +212,8 @@ func init() {
 		Exec: func(c *Ctx, k Case) []Rec {
 			if sec := cs(k, "section"); sec != "" {
 				one, _ := convRec(c, "syllable", cs(k, "key"), sec+"\n")
-				whole := c.crdEnv(append([]string{"text", "conv", "syllable"}, keyArgs(cs(k, "key"))...), []byte(strings.Repeat(sec+"\n", ci(k, "reps"))), nil, 120e9)
+				whole := c.crdEnv(append([]string{"text", "conv", "syllable"}, keyArgs(cs(k, "key"))...), []byte(strings.Repeat(sec+"\n", ci(k, "reps"))),
+					[]string{"GOMAXPROCS=" + []string{"4", "16", "2"}[len(sec)%3]}, 300e9)
 				out, ok := projectInstances(whole.Stdout)
 				blocks := ok && whole.Exit == 0
 				n1 := 0
